@@ -126,7 +126,7 @@ def draw_hazards(rng, tier):
         return {}
     hz = {}
     for k, p in (("dups", .4), ("blank", .4), ("crlf", .3), ("no_final_newline", .4), ("multibyte", .4),
-                 ("long", .2), ("diffish", .4), ("names", .4), ("indent", .4)):
+                 ("long", .2), ("diffish", .4), ("names", .4), ("indent", .4), ("uspace", .3), ("moves", .3)):
         if rng.random() < p:
             hz[k] = True
     return hz
@@ -144,7 +144,7 @@ class C01(Prop):
             "overlay. distinct = digest of (op kind, author kind, edit kind, position class) sequence x world config; "
             "non-trivial = at least one AI-attributed line was observed by the deciding monitor")
     assumptions = ["agents follow the shipped protocol: human checkpoint naming the files before an AI edit, "
-                   "ai_agent checkpoint after it", "cut-and-paste moves are not generated (no property defines them)",
+                   "ai_agent checkpoint after it", "a moved (cut-and-pasted) line may be credited to its writer or to the mover (no property defines it); every other line stays strictly checked",
                    "blank / whitespace-only lines are unconstrained", "identical line texts written by several "
                    "authors may be assigned to any of those authors (the diff's freedom)",
                    "checkpoint clock is strictly increasing (clock faults are a separate sub-mode)"]
@@ -183,8 +183,12 @@ class C01(Prop):
                 else:
                     path = rng.choice(present)
                     old = ex.w.read(repo, path)
+                kinds = None
+                if old is not None and (hz.get("uspace") or hz.get("moves")):
+                    kinds = list(gen.EDIT_KINDS) + (["wsnorm", "wsnorm"] if hz.get("uspace") else []) + \
+                        (["move", "move"] if hz.get("moves") else [])
                 new, desc = gen.mutate(rng, ex, old, who, hz,
-                                       kinds=["insert"] if old is None else None)
+                                       kinds=["insert"] if old is None else kinds)
                 if len(split_lines(new)) > cfg["max_lines"]:
                     new, desc = gen.mutate(rng, ex, old, who, hz, kinds=["delete"], max_block=10)
                 op = {"op": "edit", "who": who, "files": {path: new}, "desc": desc,
